@@ -286,8 +286,13 @@ class DFA(FSA):
     def find_next_edge(self, s, label, asbytes):
         if label is None:
             label = b"\x00" if asbytes else u'\0'
+        elif asbytes:
+            label = label + 1
+        elif ord(label) >= sys.maxunicode:
+            # There is no character after the last one
+            return None
         else:
-            label = (label + 1) if asbytes else unichr(ord(label) + 1)
+            label = unichr(ord(label) + 1)
         trans = self.transitions.get(s, {})
         if label in trans or s in self.defaults:
             return label
